@@ -12,6 +12,8 @@
 package main
 
 import (
+	"strings"
+	"sync"
 	"database/sql"
 	"encoding/json"
 	"flag"
@@ -223,6 +225,73 @@ func main() {
 		harnessErr(fmt.Errorf("calibration batch did not apply: %v", p))
 	}
 	summary["samples"] = []any{M{"callbacks": *n, "batch_ms": took.Milliseconds(), "steps": *steps}}
+
+	// 2b. several store workers at once (the Postgres store runs `workers` of them over one store.Process): each worker's
+	// batch is executed on its own database and acknowledged with its own results - nothing of one worker's batch may
+	// end up in, or be acknowledged from, another worker's
+	{
+		const workers, rounds = 4, 150
+		stores := make([]*sqlite.SqliteStore, workers)
+		paths := make([]string, workers)
+		for i := range stores {
+			paths[i] = filepath.Join(*work, fmt.Sprintf("par-%d.db", i))
+			os.Remove(paths[i])
+			b, err := sql.Open("sqlite3", paths[i])
+			if err != nil {
+				harnessErr(err)
+			}
+			if _, err := b.Exec(sqlite.CREATE_TABLE_STATEMENT); err != nil {
+				harnessErr(err)
+			}
+			b.Close()
+			if stores[i], err = open(paths[i], 10*time.Second); err != nil {
+				harnessErr(err)
+			}
+		}
+		var wg sync.WaitGroup
+		acked := make([][]string, workers)
+		for i := 0; i < workers; i++ {
+			wg.Add(1)
+			go func(i int) {
+				defer wg.Done()
+				for k := 0; k < rounds; k++ {
+					ids := []string{fmt.Sprintf("w%d.%d.a", i, k), fmt.Sprintf("w%d.%d.b", i, k)}
+					cq, p := process(stores[i], []*bus.SQE[t_aio.Submission, t_aio.Completion]{sqe("a", createPromise(ids[0])), sqe("b", createPromise(ids[1]))})
+					if p != "" || len(cq) != 2 {
+						continue
+					}
+					for j, c := range cq {
+						if c.Error == nil && c.Completion != nil && c.Completion.Store != nil && len(c.Completion.Store.Results) == 1 && c.Completion.Store.Results[0].CreatePromise != nil &&
+							c.Completion.Store.Results[0].CreatePromise.RowsAffected == 1 {
+							acked[i] = append(acked[i], ids[j])
+						}
+					}
+				}
+			}(i)
+		}
+		wg.Wait()
+		for i := range stores {
+			stores[i].Stop() // nolint
+			proms, _, err := counts(paths[i])
+			if err != nil {
+				harnessErr(err)
+			}
+			cnt["parallel_acks"] += len(acked[i])
+			for _, id := range acked[i] {
+				if !proms[id] {
+					fail(fmt.Sprintf("with %d store workers running store.Process at once, worker %d was told that promise %q was created, but its database does not hold it", workers, i, id), M{"worker": i, "id": id, "acked": len(acked[i]), "stored": len(proms)})
+					finish()
+				}
+			}
+			for id := range proms {
+				if !strings.HasPrefix(id, fmt.Sprintf("w%d.", i)) {
+					fail(fmt.Sprintf("worker %d's database holds promise %q, which another worker submitted", i, id), M{"worker": i, "id": id})
+					finish()
+				}
+			}
+			os.Remove(paths[i])
+		}
+	}
 
 	// 3. sweep
 	for _, name := range names {
